@@ -215,6 +215,31 @@ func LiftEdge(guard EdgeFilter, local func(*ssa.Function) bool, depth int) EdgeF
 							neverNil = true
 						}
 					}
+					if !neverNil {
+						// `if err != nil { return ..., err }`: the returned value is non-nil on this path
+						rvv := rv
+						neverNil = Guarded(ret, func(b *ssa.BasicBlock, idx int) bool {
+							i := BlockIf(b)
+							if i == nil {
+								return false
+							}
+							cv, tr := Truth(i.Cond, idx)
+							bo, ok := cv.(*ssa.BinOp)
+							if !ok || (bo.Op.String() != "==" && bo.Op.String() != "!=") {
+								return false
+							}
+							var other ssa.Value
+							switch {
+							case IsNilConst(bo.Y):
+								other = bo.X
+							case IsNilConst(bo.X):
+								other = bo.Y
+							default:
+								return false
+							}
+							return other == rvv && tr == (bo.Op.String() == "!=")
+						})
+					}
 					switch {
 					case IsNilConst(rv) && !wantNil:
 						return // this return yields nil, the edge needs non-nil
@@ -236,6 +261,7 @@ func LiftEdge(guard EdgeFilter, local func(*ssa.Function) bool, depth int) EdgeF
 
 // ConstUnder evaluates v to a constant under the current parameter bindings. Beyond Canon/ConstOf it selects
 // the operand of a two-way phi whose controlling branch condition is itself a (bound) boolean constant:
+//
 //	role := A; if flag { role = B }   with flag bound to true at this call site  ->  B
 func ConstUnder(v ssa.Value, depth int) constant.Value {
 	if depth <= 0 || v == nil {
